@@ -18,7 +18,7 @@ from __future__ import annotations
 import vlib.boot  # noqa: F401
 from vlib.boot import B, drive
 from vlib.ob import obligation, smt_obligation
-from vlib.world import EVA, world_ab, world_ab_valid
+from vlib.world import EVA, EVA2, EVB, world_ab, world_ab_valid
 from vlib import h_retry as H
 
 from workflows.retry_policy import retry_policy, stop_after_attempt, stop_never
@@ -128,6 +128,56 @@ def ob_retry_delay_is_next_of_failure_count(nw: int, b1: bool, q: int, wid: int,
 
 
 SHAPE_NW = B(1, 2)
+
+
+@obligation(quick=120, thorough=300, partitions_quick=[f"a == {a}" for a in range(0, 4)], partitions_thorough=[f"a == {a} and other == {o}" for a in range(0, 7) for o in range(3)],
+            what="a retried event that has to QUEUE (all workers of its step busy when its delay expires) keeps its failure count: whatever ticks are "
+                 "reduced meanwhile (unrelated event, another invocation finishing), when it finally runs and fails the wait strategy is asked for "
+                 "the index of its (a+1)-th failure, not for a fresh one",
+            bounds={"a = failures so far": "0..AMAX", "ticks reduced while it is queued": "0..2 of {unrelated add-event, waiter timeout, busy worker completes}"})
+def ob_queued_retry_keeps_count(a: int, other: int, delay: int) -> bool:
+    """
+    pre: 0 <= a <= AMAX and 0 <= other <= 2 and 0 <= delay <= 3
+    post: _
+    """
+    wait = _RecWait(delay)
+    policy = retry_policy(wait=wait, stop=stop_never())
+    st = world_ab(1, True, False, False, 0, policy=policy, t0=1)          # the only worker of step a is busy
+    exc = ValueError("boom")
+    # the retry tick arrives (delay expired) while the worker is busy: it is queued with its retry info
+    retry = TickAddEvent.model_construct(event=EVA2, step_name="a", attempts=a, first_attempt_at=1, last_exception=(exc if a else None),
+                                         last_failed_at=(1 if a else None), recovery_counts={})
+    st, _ = _reduce_tick(retry, st, 2, "r")
+    if len(st.workers["a"].queue) != 1:
+        return False
+    # unrelated ticks while it sits in the queue (every tick deep-copies the state)
+    if other >= 1:
+        st, _ = _reduce_tick(TickAddEvent.model_construct(event=EVB, step_name=None, attempts=None, first_attempt_at=None, last_exception=None,
+                                                          last_failed_at=None, recovery_counts={}), st, 2, "r")
+    if other >= 2:
+        from workflows.runtime.types.ticks import TickWaiterTimeout
+        st, _ = _reduce_tick(TickWaiterTimeout(step_name="a", waiter_id="nope"), st, 2, "r")
+    qa = st.workers["a"].queue
+    if len(qa) != 1 or (qa[0].attempts or 0) != a:
+        return False
+    # the busy worker completes: the queued retry gets the slot
+    from workflows.runtime.types.results import StepWorkerResult
+    done = TickStepResult.model_construct(step_name="a", worker_id=0, event=EVA, result=[StepWorkerResult(result=None)])
+    st, _ = _reduce_tick(done, st, 3, "r")
+    ips = st.workers["a"].in_progress
+    if len(ips) != 1 or ips[0].event is not EVA2 or ips[0].attempts != a:
+        return False
+    # ... and fails again: the strategy is asked for failure a+1
+    fail = TickStepResult.model_construct(step_name="a", worker_id=ips[0].worker_id, event=EVA2, result=[StepWorkerFailed.model_construct(exception=exc, failed_at=4)])
+    st, cmds = _reduce_tick(fail, st, 4, "r")
+    if len(wait.calls) != 1:
+        return False
+    direct_idx = wait.calls[0][0]
+    probe = _RecWait(delay)
+    retry_policy(wait=probe, stop=stop_never()).next(1, a + 1, exc, seed=1)
+    again = [c for c in cmds if isinstance(c, CommandQueueEvent) and c.event is EVA2]
+    return direct_idx == probe.calls[0][0] and len(again) == 1 and again[0].attempts == a + 1 and again[0].delay == delay
+
 
 
 class _Adapter:
